@@ -31,6 +31,7 @@ type c02Case struct {
 	// 2 context.Canceled with the message context cancelled, 3 context.DeadlineExceeded with the message context expired
 	Pub     int    `json:"pub"`     // 0 accept, 1 error, 2 panic
 	Flight  int    `json:"flight"`  // messages in flight together with this one
+	Arrive  int    `json:"arrive"`  // settled by the subscriber before it hands the message over: 0 no, 1 acked, 2 nacked
 
 	Trace [][]interface{} `json:"trace"`
 	Final int             `json:"final"` // 0 unsettled, 1 acked, 2 nacked
@@ -321,6 +322,19 @@ func c02RunGroup(rt *hookrt.Runtime, pubKind int, mws []int, cases []*c02Case) e
 			c.Flight = n
 			c.msg = message.NewMessage(c.ID, []byte("payload of "+c.ID))
 			c.msg.Metadata.Set("case", c.ID)
+			if c.Arrive != 0 {
+				c.mu.Lock()
+				c.inPre = true
+				c.mu.Unlock()
+				if c.Arrive == 1 {
+					c.msg.Ack()
+				} else {
+					c.msg.Nack()
+				}
+				c.mu.Lock()
+				c.inPre = false
+				c.mu.Unlock()
+			}
 			wg.Add(1)
 			go func(c *c02Case) {
 				defer wg.Done()
@@ -329,6 +343,24 @@ func c02RunGroup(rt *hookrt.Runtime, pubKind int, mws []int, cases []*c02Case) e
 					return
 				}
 				c.Final = script.WaitSettled(c.msg, 3*time.Second)
+				if c.Arrive != 0 {
+					// already settled on arrival: wait for the Router's own settle call instead
+					deadline := time.Now().Add(3 * time.Second)
+					for time.Now().Before(deadline) {
+						c.mu.Lock()
+						done := false
+						for _, e := range c.Trace {
+							if len(e) > 0 && e[0] == "settle" {
+								done = true
+							}
+						}
+						c.mu.Unlock()
+						if done {
+							break
+						}
+						time.Sleep(2 * time.Millisecond)
+					}
+				}
 				if c.Final == 0 {
 					atomic.AddInt32(&unsettled, 1)
 				}
@@ -383,6 +415,21 @@ func cmdC02(args []string) error {
 							n++
 							group = append(group, &c02Case{ID: fmt.Sprintf("m%d", n), PubKind: pk, Mws: mws, Pre: pre,
 								OutKind: sh.kind, Outs: sh.outs, PanicV: pv, Pub: pb})
+						}
+					}
+				}
+			}
+			if len(mws) == 0 {
+				// messages a subscriber (or subscriber decorator) settled before handing them over
+				for arrive := 1; arrive <= 2; arrive++ {
+					for _, sh := range outShapes {
+						if pk == 1 && len(sh.outs) > 0 {
+							continue
+						}
+						for pb := 0; pb < 2; pb++ {
+							n++
+							group = append(group, &c02Case{ID: fmt.Sprintf("m%d", n), PubKind: pk, Mws: mws, Arrive: arrive,
+								OutKind: sh.kind, Outs: sh.outs, Pub: pb})
 						}
 					}
 				}
